@@ -59,8 +59,13 @@ RULE = ("cases = (kind in {periodic angle, periodic dihedral, plain angle, plain
         "geometry class in {random, long, collinear, planar, grid, tiny}, lattice-shift spread, frames, atoms) from a seeded "
         "stream; chains are built from internal coordinates (NeRF) and scattered over images by per-atom lattice shifts; "
         "named cases = (protein file, edit, opt, periodic); a case is non-trivial when at least one monitor decided "
-        "(value compared with the float64 oracle / relation compared / index rows compared); distinct = distinct descriptors")
-WORKERS = {"quick": 8, "thorough": 16}
+        "(value compared with the float64 oracle / relation compared / index rows compared); distinct = distinct descriptors; "
+        "a second stream (w=1) varies what the first holds fixed: index containers/layouts, row-list shapes (one row, SIMD "
+        "widths, thousands over 500-2000 atoms, descending, shuffled chains, shared atoms), truthy periodic flags, trajectories "
+        "derived from longer ones, five per-frame cell patterns up to 300 frames, cell scales 2^-6..2^8, edit histories on one "
+        "Trajectory object, named torsions with atoms reordered inside residues / scattered over periodic images with per-frame "
+        "cells up to 257 frames / on derived trajectories, indices_* against compute_*")
+WORKERS = {"quick": 8, "thorough": 15}  # 15, not 16: the 16 named-torsion files of the thorough tier resonate with 16 workers (one worker got every 3nch case)
 BUDGET = {"quick": 60, "thorough": 900}
 FLOORS = {"quick": {"angle.value": 12000, "dihedral.value": 10000, "angle.range": 46000, "dihedral.range": 80000,
                     "ref.angle.value": 2200, "ref.dihedral.value": 1800, "plain.value": 56000, "opt-vs-ref": 11000,
@@ -188,6 +193,8 @@ def _rows(rng, na, m, wide=False):
 
 
 def _as_index_arg(a, style):
+    if isinstance(style, str):  # widening pass: containers / dtypes / layouts of common.index_arg
+        return common.index_arg(a, style)
     if style == 0:
         return a.astype(np.int64)
     if style == 1:
@@ -372,27 +379,42 @@ def _run_periodic(case, ctx):
     call = md.compute_dihedrals if dihedral else md.compute_angles
     m = 4 if dihedral else 3
     kn = "dihedral" if dihedral else "angle"
-    t, B, ortho_f, base32, shift32, rng = _build_periodic(case)
+    t, B, ortho_f, base32, shift32, rng = (_build_periodic_wide if case.get("w") else _build_periodic)(case)
     nf, na = t.n_frames, t.n_atoms
     K = case["spread"]
+    ptrue = _flag(case.get("ptrue", True))
+    if case.get("w"):
+        # the trajectory object handed to mdtraj is obtained the way case["derived"] says; it is judged by its own xyz / cell
+        t.xyz = shift32
+        t = common.derive_traj(t, case["derived"], rng)
+        shift32 = np.asarray(t.xyz, np.float32)
+        B = t.unitcell_vectors.astype(np.float64)
+        ortho_f = np.all(t.unitcell_angles == 90.0, axis=1)
+        for k_, v_ in (("rows", case["rows"]), ("trajectory_origin", case["derived"]), ("per_frame_cells", case["pf"]),
+                       ("cell_scale", f"2^{case['scale_log2']}"), ("periodic_flag", repr(case["ptrue"])),
+                       ("n_frames", "1" if nf == 1 else ("2-8" if nf <= 8 else ">=100")), ("n_atoms", "thousands" if na >= 500 else "small")):
+            ctx.observe("wide." + k_, v_)
     kernel = "ortho" if bool(ortho_f.all()) else "triclinic"
     ctx.observe("cell", case["cell"])
     ctx.observe("kernel", f"{fn}:{kernel}")
     ctx.observe("geometry", case["geo"])
     ctx.observe("spread_cells", K)
     ctx.observe("index_arg_style", case["idx"])
-    rows = _rows(rng, na, m, case.get("wide", False))
+    rows = _rows_wide(rng, na, m, case["rows"]) if case.get("rows") else _rows(rng, na, m, case.get("wide", False))
+    if case.get("w") and nf >= 100 and len(rows) > 16:
+        rows = rows[np.sort(rng.choice(len(rows), 16, replace=False))]
     n = len(rows)
     both = np.vstack([rows, rows[:, ::-1]])
 
-    t.xyz = shift32
+    if not case.get("w"):
+        t.xyz = shift32
     ref = Ref(shift32, rows, B, ortho_f, K, dihedral)
     ctx.observe("bond_angle_class", "near-collinear" if (ref.dom & ~ref.cond).any() else "generic")
-    out = call(t, _as_index_arg(both, case["idx"]), periodic=True, opt=True)
+    out = call(t, _as_index_arg(both, case["idx"]), periodic=ptrue, opt=True)
     if out.shape != (nf, 2 * n):
         ctx.violation("shape", f"{fn}:opt:periodic:shape", f"shape {out.shape}, expected {(nf, 2 * n)}")
         return
-    label = f"opt:periodic-{kernel}"
+    label = f"opt:periodic-{kernel}" + ("" if ptrue is True else f":periodic={case['ptrue']!r}")
     o_fwd, o_rev = out[:, :n], out[:, n:]
     if _judge(ctx, f"{kn}.value", fn, label, o_fwd, ref) is None:
         return
@@ -402,7 +424,7 @@ def _run_periodic(case, ctx):
     if K:
         tb = md.Trajectory(base32, t.topology, unitcell_lengths=t.unitcell_lengths, unitcell_angles=t.unitcell_angles)
         refb = Ref(base32, rows, B, ortho_f, 0, dihedral)
-        ob = call(tb, rows, periodic=True, opt=True)
+        ob = call(tb, rows, periodic=ptrue, opt=True)
         _judge(ctx, f"{kn}.value", fn, label, ob, refb)
         _relation(ctx, "lattice-shift", f"{fn}:{label}:lattice-shift", f"{fn}({label}) changes under per-atom lattice shifts", o_fwd, ob, ref, refb)
 
@@ -410,7 +432,7 @@ def _run_periodic(case, ctx):
     ns = min(n, (10 if kernel == "ortho" else 6) * (2 if case.get("wide") else 1))
     sub = rows[:ns]
     refs = Ref(shift32, sub, B, ortho_f, K, dihedral)
-    orf = call(t, sub, periodic=True, opt=False)
+    orf = call(t, _as_index_arg(sub, case["idx"]) if case.get("w") else sub, periodic=ptrue, opt=False)
     if _judge(ctx, f"ref.{kn}.value", fn, f"ref:periodic-{kernel}", orf, refs) is not None:
         _relation(ctx, "opt-vs-ref", f"{fn}:periodic-{kernel}:opt-vs-ref", f"{fn}: opt=True and opt=False disagree (periodic, {kernel})",
                   o_fwd[:, :ns], orf, refs, refs)
@@ -418,7 +440,9 @@ def _run_periodic(case, ctx):
     # periodic given as a numpy bool
     refn = Ref(shift32, sub, None, ortho_f, 0, dihedral)
     informative = refs.dom & refs.cond & refn.cond & (refs.rel(refs.val, refn.val) > 4 * (refs.tol + refn.tol))
-    if informative.any():
+    if ptrue is not True:
+        pass  # the flag variant is the subject of this whole case (value monitors above)
+    elif informative.any():
         for opt in (True, False):
             o2 = call(t, sub, periodic=np.True_, opt=opt)
             o1 = o_fwd[:, :ns] if opt else orf
@@ -464,7 +488,13 @@ def _run_plain(case, ctx):
     tc = md.Trajectory(x32, top, unitcell_lengths=np.tile(lens, (nf, 1)).astype(np.float32),
                        unitcell_angles=np.tile(angs, (nf, 1)).astype(np.float32))
     tn = md.Trajectory(x32, top)
-    rows = _rows(rng, na, m, case.get("wide", False))
+    pfalse = _flag(case.get("pfalse", False))
+    if case.get("w"):
+        tc, tn = common.derive_traj(tc, case["derived"], rng), common.derive_traj(tn, case["derived"] if case["derived"] != "vectors" else "slice", rng)
+        for k_, v_ in (("rows", case["rows"]), ("trajectory_origin", case["derived"]), ("nonperiodic_flag", repr(case["pfalse"])),
+                       ("n_atoms", "thousands" if na >= 500 else "small")):
+            ctx.observe("wide." + k_, v_)
+    rows = _rows_wide(rng, na, m, case["rows"]) if case.get("rows") else _rows(rng, na, m, case.get("wide", False))
     n = len(rows)
     both = np.vstack([rows, rows[:, ::-1]])
     ref = Ref(x32, rows, None, None, 0, dihedral)
@@ -475,7 +505,7 @@ def _run_plain(case, ctx):
         ctx.observe("plain_variant", label)
         for opt in (True, False):
             tag = f"{'opt' if opt else 'ref'}:{lab}"
-            out = call(tr, _as_index_arg(both, case["idx"]), periodic=periodic, opt=opt)
+            out = call(tr, _as_index_arg(both, case["idx"]), periodic=(periodic if periodic else pfalse), opt=opt)
             if out.shape != (nf, 2 * n):
                 ctx.violation("shape", f"{fn}:{tag}:shape", f"shape {out.shape}, expected {(nf, 2 * n)}")
                 continue
@@ -602,6 +632,16 @@ def _run_named(case, ctx):
                         a.name = a.name + "x"
                         nren += 1
         ctx.observe("atoms_renamed_in_place", "yes" if nren else "no")
+    Kn = 0
+    if case["edit"] == "cellscatter":
+        t, Kn = _cellscatter(t, case, rng, ctx)
+        periodic = True
+        if t.n_frames > 5:
+            opt = True  # the python reference path loops over frames x rows x 27 images
+    elif case["edit"] == "derived":
+        mode = case["derived"] if case["derived"] != "atom_slice" else "slice-nocopy"
+        ctx.observe("wide.named_trajectory_origin", mode)
+        t = common.derive_traj(t, mode, rng)
     ctx.observe("file", case["file"])
     ctx.observe("edit", case["edit"])
     have_cell = t.unitcell_lengths is not None
@@ -629,6 +669,10 @@ def _run_named(case, ctx):
         if idx.ndim != 2 or idx.shape[1] != 4 or val.shape != (t.n_frames, len(idx)):
             ctx.violation("named.indices", f"{tag}:shape", f"{tag}: indices {idx.shape}, values {val.shape}, frames {t.n_frames}")
             continue
+        # twin entry point: indices_<name>(topology) is documented to return the same table
+        twin = np.asarray(getattr(md.geometry, "indices_" + which)(t.topology)) if (case.get("w") or t.n_atoms <= 1000) else idx
+        ctx.check(twin.shape == idx.shape and np.array_equal(twin, idx), "named.indices-twin", f"indices_{which}:differs-from-{tag}",
+                  f"indices_{which}(topology) returned {twin.shape} rows, {tag} {idx.shape}" + ("" if twin.shape != idx.shape else " with different entries"))
         got = [tuple(int(v) for v in r) for r in idx]
         sreq, sopt, sgot = set(req), set(optional), set(got)
         missing = sorted(sreq - sgot)
@@ -668,7 +712,7 @@ def _run_named(case, ctx):
         if len(set(map(len, map(set, got)))) != 1 or len(set(got[0])) != 4:
             ctx.skip("named.values", "row with repeated atoms")
             continue
-        ref = Ref(x32, rows, B, ortho_f, 0, True)
+        ref = Ref(x32, rows, B, ortho_f, Kn, True)
         kernel = "nonperiodic" if not use_cell else ("periodic-ortho" if bool(ortho_f.all()) else "periodic-triclinic")
         _judge(ctx, "named.values", tag, f"{'opt' if opt else 'ref'}:{kernel}", val, ref)
 
@@ -680,3 +724,264 @@ def evidence_extra(records, dones, tier):
         if c.get("kind") == "named":
             files.setdefault(c["file"], set()).add(c["edit"])
     return {"named_files_x_edits": {k: sorted(v) for k, v in sorted(files.items())}}
+
+
+# =====================================================================================================================
+# Widening pass (appended stream; the cases above keep their numbers and seeds).  Same oracle (Ref), same tolerances.
+#   value cases with w=1   index tables as tuple / Fortran order / int16 / offset view (besides int32, list, strided), row lists
+#                          of one row, SIMD-width counts, thousands of rows over 500..2000 atoms, descending, chained in
+#                          shuffled order, one row repeated, rows sharing one atom / one central bond; periodic given as
+#                          np.True_ / 1 (np.False_ / 0 for the non-periodic variants); trajectory cut out of a longer one
+#                          (copy or view), every other frame, atom subset, joined, float64 coordinates, cell given as vectors;
+#                          per-frame cells where one field drifts / the class changes / only the last frames differ /
+#                          two cells alternate, also over 129..300 frames; cells of 0.02 nm and of 1500 nm
+#   hist                   the same Trajectory object across calls: compute, edit xyz / cell (setter or in place), compute
+#   named (new edits)      shuffle_atoms  atoms of every residue stored in a different order (definitions are by name)
+#                          cellscatter    every atom moved by its own lattice vector, per-frame cells, 1..257 frames:
+#                                         the named torsions of molecules split over periodic images
+#                          derived        the protein trajectory is a view / slice / join of a longer one
+#   every named case       indices_<name>(topology) must be the table compute_<name> returns (twin entry points)
+WIDE_KINDS = ["ang", "dih", "plain_ang", "dih", "ang", "plain_dih", "hist", "named", "ang", "dih", "named", "hist"]
+NWIDE = {"quick": 300, "thorough": 6000}
+ROW_SHAPES = ["one", "simd", "desc", "chain-shuffled", "repeat", "shared", "thousands", "windows"]
+NEW_EDITS = ["shuffle_atoms", "cellscatter", "derived", "cellscatter"]
+PERIODIC_TRUE = [True, "np.True_", 1]
+PERIODIC_FALSE = [False, "np.False_", 0]
+SMALL_FILES = ["1bpi.pdb", "2EQQ.pdb", "1vii.pdb", "native.pdb", "frame0.h5", "ala_ala_ala.pdb", "aaqaa-wat.pdb", "bpti.pdb", "4OH9.pdb"]
+FLOORS["quick"].update({"named.indices-twin": 500, "wide.history": 2000})
+
+
+def _flag(v):
+    return {"np.True_": np.True_, "np.False_": np.False_}.get(v, v) if isinstance(v, str) else v
+
+
+def _gen_wide(tier, seed):
+    n0 = NCASES[tier]
+    cells = common.CELL_KINDS
+    jn = 0
+    for k in range(NWIDE[tier]):
+        i = n0 + k
+        rng = common.rng_for("C07w", seed, i)
+        kind = WIDE_KINDS[int(rng.integers(len(WIDE_KINDS)))]  # drawn, not cycled: no resonance with the worker count
+        c = dict(i=i, seed=common.case_seed(seed, "C07", i), kind=kind, w=1)
+        if kind == "named":
+            files = SMALL_FILES if tier == "quick" else SMALL_FILES + ["1am7_protein.pdb", "4ZUO.pdb"]
+            c.update(file=files[(jn + seed) % len(files)], edit=NEW_EDITS[(jn // len(files) + jn) % len(NEW_EDITS)],
+                     opt=bool(rng.random() < 0.7), periodic=bool(rng.random() < 0.7),
+                     cell=cells[int(rng.integers(len(cells)))], pf=str(rng.choice(["const"] + common.PF_MODES)),
+                     n_frames=int(rng.choice([1, 2, 5, 5, 130, 257])), spread=int(rng.choice([1, 1, 3, 10])),
+                     derived=str(rng.choice(common.DERIVED[1:])))
+            jn += 1
+        else:
+            big = rng.random() < 0.06
+            long_ = (not big) and rng.random() < 0.09
+            scale = int(rng.choice([0, 0, 0, 0, -6, 8]))
+            c.update(cell=cells[int(rng.integers(len(cells)))],
+                     geo=str(rng.choice(["random", "random", "long", "collinear", "planar"] + ([] if scale else ["grid", "tiny"]))),
+                     spread=int(rng.choice([0, 1, 1, 3, 10, 50])), pf=str(rng.choice(["const"] + common.PF_MODES)),
+                     perframe=False, mixed=False, scale_log2=scale,
+                     n_frames=int(rng.choice([129, 200, 257, 300])) if long_ else (int(rng.integers(1, 4)) if big else int(rng.integers(1, 6))),
+                     n_atoms=int(rng.choice([500, 2000])) if big else int(rng.integers(4, 33)),
+                     idx=str(rng.choice(common.INDEX_STYLES)), rows="thousands" if big else str(rng.choice(ROW_SHAPES)),
+                     derived=str(rng.choice(common.DERIVED)) if not long_ else str(rng.choice(["none", "stride-nocopy", "join", "slice-nocopy"])),
+                     ptrue=PERIODIC_TRUE[int(rng.integers(3))], pfalse=PERIODIC_FALSE[int(rng.integers(3))], wide=False)
+            if kind == "hist":
+                c.update(n_frames=int(rng.integers(2, 6)), n_atoms=int(rng.integers(4, 20)), derived="none", rows="windows")
+        yield c
+
+
+def gen_cases(tier, seed):  # noqa: F811  (extends the stream defined at the top of the module)
+    import itertools
+    return common.with_asan_slice(itertools.chain(_gen_cases(tier, seed), _gen_wide(tier, seed)), ASAN_EVERY[tier])
+
+
+def _rows_wide(rng, na, m, shape):
+    def rnd(n):
+        if n <= 200:
+            return np.array([rng.choice(na, m, replace=False) for _ in range(n)], dtype=np.int64)
+        width = min(na, m + 4)
+        start = rng.integers(0, na - width + 1, n)
+        offs = np.argsort(rng.random((n, width)), axis=1)[:, :m]
+        return (start[:, None] + offs).astype(np.int64)
+    win = np.array([list(range(k, k + m)) for k in range(na - m + 1)], dtype=np.int64)
+    if shape == "one":
+        return rnd(1)
+    if shape == "simd":
+        return rnd(int(rng.choice(common.SIMD_COUNTS)))
+    if shape == "desc":
+        return win[::-1, ::-1].copy()
+    if shape == "chain-shuffled":
+        return win[rng.permutation(len(win))]
+    if shape == "repeat":
+        return np.tile(rnd(int(rng.integers(1, 3))), (int(rng.integers(2, 12)), 1))
+    if shape == "shared":
+        if m == 3:  # one middle atom, many arms
+            c = int(rng.integers(na))
+            others = np.array([x for x in range(na) if x != c])
+            ends = np.array([rng.choice(others, 2, replace=False) for _ in range(int(rng.integers(2, 20)))])
+            return np.stack([ends[:, 0], np.full(len(ends), c), ends[:, 1]], axis=1).astype(np.int64)
+        b = rng.choice(na - 1)
+        others = np.array([x for x in range(na) if x not in (b, b + 1)])
+        ends = np.array([rng.choice(others, 2, replace=False) for _ in range(int(rng.integers(2, 20)))])
+        return np.stack([ends[:, 0], np.full(len(ends), b), np.full(len(ends), b + 1), ends[:, 1]], axis=1).astype(np.int64)
+    if shape == "thousands":
+        n = int(rng.choice([1023, 2048, 4099, 5000]))
+        r = np.vstack([win[: n // 2], rnd(n - min(len(win), n // 2))])
+        return r
+    return win
+
+
+def _build_periodic_wide(case):
+    import mdtraj as md
+    rng = common.rng_for("C07wide", case["seed"])
+    nf, na = case["n_frames"], case["n_atoms"]
+    kindc = case["cell"]
+    if case["pf"] == "const":
+        cells = [common.random_cell(rng, kindc)] * nf
+    else:
+        cells = common.perframe_cells(rng, kindc, nf, case["pf"])
+    sc = 2.0 ** case["scale_log2"]
+    L = (np.array([c[0] for c in cells]) * sc).astype(np.float32)
+    A = np.array([c[1] for c in cells], dtype=np.float32)
+    top = common.simple_topology(na)
+    t = md.Trajectory(np.zeros((nf, na, 3), np.float32), top, unitcell_lengths=L, unitcell_angles=A)
+    B = t.unitcell_vectors.astype(np.float64)
+    ortho_f = np.all(A == 90.0, axis=1)
+    base = np.zeros((nf, na, 3))
+    shifted = np.zeros((nf, na, 3))
+    K = case["spread"]
+    for f in range(nf):
+        w = common.cell_widths(B[f])
+        origin = rng.uniform(0, 1, 3) @ B[f]
+        base[f] = _chain(rng, na, case["geo"], float(w.min()), origin, bool(ortho_f[f]))
+        shifted[f] = base[f] + rng.integers(-K, K + 1, (na, 3)).astype(np.float64) @ B[f] if K else base[f]
+    return t, B, ortho_f, base.astype(np.float32), shifted.astype(np.float32), rng
+
+
+def _run_hist(case, ctx):
+    """one Trajectory object: angles and dihedrals, then an edit of coordinates or cell, then angles and dihedrals again"""
+    import mdtraj as md
+    t, B, ortho_f, base32, shift32, rng = _build_periodic_wide(case)
+    t.xyz = shift32
+    nf, na = t.n_frames, t.n_atoms
+    K = case["spread"]
+    sc = 2.0 ** case["scale_log2"]
+    ctx.observe("cell", case["cell"])
+    ops = ["xyz-inplace", "xyz-setter", "lengths-setter", "lengths-inplace", "angles-setter", "vectors-setter", "cell-removed", "lattice-shift-inplace"]
+    seq = [str(o) for o in rng.choice(ops, int(rng.integers(1, 4)))]
+    rows3, rows4 = _rows(rng, na, 3), _rows(rng, na, 4)
+
+    def observe_all(stage):
+        have = t.unitcell_lengths is not None
+        # the lattice is built independently from the lengths and angles the object holds now (not from unitcell_vectors)
+        Bc = np.array([common.cell_vectors64(l, a) for l, a in zip(t.unitcell_lengths, t.unitcell_angles)]) if have else None
+        if have:
+            Brep = np.asarray(t.unitcell_vectors, np.float64)
+            dev = np.abs(Bc - Brep).max(axis=(1, 2))
+            lim = 2e-6 + 1e-5 * np.linalg.norm(Bc, axis=2).max(axis=1)
+            ctx.check(bool((dev <= lim).all()), "wide.history-lattice",
+                      "history:unitcell_vectors-differ-from-current-lengths-and-angles",
+                      f"{stage}: unitcell_vectors deviate by {dev.max():.3g} nm from the lattice of the lengths/angles the object holds")
+            Bc = np.where((dev > lim)[:, None, None], Bc, Brep)  # judged by the reported lattice unless that one is stale
+        of = np.all(t.unitcell_angles == 90.0, axis=1) if have else None
+        x32 = np.asarray(t.xyz, np.float32)
+        for dihedral, rows, call, fn in ((False, rows3, md.compute_angles, "compute_angles"), (True, rows4, md.compute_dihedrals, "compute_dihedrals")):
+            for opt in (True, False):
+                r = rows if opt else rows[:6]
+                ref = Ref(x32, r, Bc, of, (K + 3) if have else 0, dihedral)
+                out = call(t, r, periodic=True, opt=opt)
+                kern = "no-cell" if not have else ("ortho" if bool(of.all()) else "triclinic")
+                _judge(ctx, "wide.history", fn, f"{'opt' if opt else 'ref'}:history:{kern}", out, ref)
+    observe_all("first call")
+    for o in seq:
+        ctx.observe("wide.history_edit", o)
+        if t.unitcell_lengths is None and o not in ("xyz-inplace", "xyz-setter"):
+            continue
+        f = int(rng.integers(0, nf))
+        if o == "xyz-inplace":
+            t.xyz[f, int(rng.integers(0, na))] += np.float32(rng.normal(scale=0.05, size=3) * sc)
+        elif o == "xyz-setter":
+            t.xyz = (t.xyz[::-1] + np.float32(0.25 * sc)).astype(np.float32)
+        elif o == "lattice-shift-inplace":
+            a = int(rng.integers(0, na))
+            t.xyz[f, a] = (t.xyz[f, a].astype(np.float64) + rng.integers(-3, 4, 3) @ t.unitcell_vectors[f].astype(np.float64)).astype(np.float32)
+        elif o == "lengths-setter":
+            L = t.unitcell_lengths.copy()
+            L[f] *= np.float32(rng.uniform(0.8, 1.4))
+            t.unitcell_lengths = L
+        elif o == "lengths-inplace":
+            t.unitcell_lengths[f, int(rng.integers(3))] *= np.float32(rng.uniform(0.8, 1.4))
+        elif o == "angles-setter":
+            A = t.unitcell_angles.copy()
+            A[f] = common.random_cell(rng, str(rng.choice(["ortho", "monoclinic", "mono_alpha", "hex120", "triclinic"])))[1]
+            t.unitcell_angles = A
+        elif o == "vectors-setter":
+            l, a = common.random_cell(rng, case["cell"])
+            V = t.unitcell_vectors.copy()
+            V[f] = common.cell_vectors64(l * sc, a)
+            t.unitcell_vectors = V
+        elif o == "cell-removed":
+            t.unitcell_vectors = None
+        observe_all("after " + o)
+
+
+def _cellscatter(t, case, rng, ctx):
+    """the protein in nf frames (file frames repeated with 0.01 nm noise), per-frame cells, every atom moved by its own
+    lattice vector; returns (trajectory, K)"""
+    import mdtraj as md
+    nf = case["n_frames"] if t.n_atoms <= 1000 else min(case["n_frames"], 5)
+    src = np.asarray(t.xyz, np.float64)
+    x = src[np.arange(nf) % len(src)] + rng.normal(scale=0.01, size=(nf,) + src.shape[1:])
+    cells = [common.random_cell(rng, case["cell"])] * nf if case["pf"] == "const" else common.perframe_cells(rng, case["cell"], nf, case["pf"])
+    L = np.array([c[0] for c in cells], dtype=np.float32)
+    A = np.array([c[1] for c in cells], dtype=np.float32)
+    t2 = md.Trajectory(np.zeros((nf, t.n_atoms, 3), np.float32), t.topology, unitcell_lengths=L, unitcell_angles=A)
+    Bv = t2.unitcell_vectors.astype(np.float64)
+    K = case["spread"]
+    n = rng.integers(-K, K + 1, (nf, t.n_atoms, 3)).astype(np.float64)
+    t2.xyz = (x + np.einsum("fai,fij->faj", n, Bv)).astype(np.float32)
+    ctx.observe("wide.named_frames", "1" if nf == 1 else ("2-5" if nf <= 5 else ">=130"))
+    ctx.observe("wide.named_per_frame_cells", case["pf"])
+    ctx.observe("wide.named_cell", case["cell"])
+    return t2, K
+
+
+def _shuffle_atoms(t, rng):
+    import mdtraj as md
+    top = t.topology
+    new = md.Topology()
+    order = []
+    for ch in top.chains:
+        c2 = new.add_chain()
+        for res in ch.residues:
+            r2 = new.add_residue(res.name, c2, resSeq=res.resSeq, segment_id=res.segment_id)
+            atoms = list(res.atoms)
+            for k in rng.permutation(len(atoms)):
+                a = atoms[int(k)]
+                new.add_atom(a.name, a.element, r2, serial=a.serial)
+                order.append(a.index)
+    t2 = md.Trajectory(np.asarray(t.xyz)[:, order], new)
+    if t.unitcell_lengths is not None:
+        t2.unitcell_lengths, t2.unitcell_angles = t.unitcell_lengths.copy(), t.unitcell_angles.copy()
+    return t2
+
+
+_edit_original = _edit
+
+
+def _edit(t, edit, rng, ctx):  # noqa: F811
+    if edit == "shuffle_atoms":
+        return _shuffle_atoms(t, rng)
+    if edit in ("cellscatter", "derived"):
+        return t
+    return _edit_original(t, edit, rng, ctx)
+
+
+_run_case_original = run_case
+
+
+def run_case(case, ctx):  # noqa: F811
+    if case.get("kind") == "hist":
+        ctx.observe("kind", "hist")
+        return _run_hist(case, ctx)
+    return _run_case_original(case, ctx)
